@@ -13,7 +13,7 @@ TRUSTED_BASE = [
 PROPS = {
     "C01": {
         "module": "Cdecao.Props.C01",
-        "theorems": ["Props.C01", "Props.C01_node"],
+        "theorems": ["Props.C01", "Props.C01_node", "Props.C01_valid"],
         "streams": ["node", "node-rooms", "solve"],
     },
     "C02": {
@@ -34,17 +34,17 @@ PROPS = {
     },
     "C06": {
         "module": "Cdecao.Props.C06",
-        "theorems": ["Props.C06", "Props.C06_node"],
+        "theorems": ["Props.C06", "Props.C06_node", "Props.C06_exec"],
         "streams": ["node-rooms", "solve-rooms"],
     },
     "C07": {
         "module": "Cdecao.Props.C07",
-        "theorems": ["Props.C07_partial", "Props.C07_total"],
+        "theorems": ["Props.C07_partial", "Props.C07_total", "Props.C07_exec"],
         "streams": ["hungarian"],
     },
     "C08": {
         "module": "Cdecao.Props.C08",
-        "theorems": ["Props.C08_score"],
+        "theorems": ["Props.C08_score", "Props.C08_score_valid"],
         "streams": ["node", "solve"],
     },
     "C09": {
